@@ -77,8 +77,20 @@ def run_scripts(ctx, drv, scripts, tf):
             found.append(("death", {"script": scripts[last - 1], "head": head[0] if head else "rc%d" % rc, "frame": frames[0].split("(")[0],
                                     "stderr": err[-4000:]}))
             if os.path.exists(part):
+                # the trace file of a dead driver ends somewhere inside the execution that killed it (possibly inside a line):
+                # keep the complete executions only
+                good = []
                 with open(part) as f:
-                    lines += f.readlines()
+                    for ln in f:
+                        try:
+                            json.loads(ln)
+                        except ValueError:
+                            break
+                        good.append(ln)
+                resets = [i for i, ln in enumerate(good) if '"ev":"reset"' in ln]
+                if resets and not any('"ev":"end"' in ln for ln in good[resets[-1]:]):
+                    good = good[:resets[-1]]
+                lines += good
             skip = last
             continue
         if not summ:
@@ -96,6 +108,11 @@ def run_scripts(ctx, drv, scripts, tf):
 
 
 # every event kind the trace specification has an action for; anything else in a trace is an error of the machinery
+ENDSTATE_EVENTS = {"reset", "hostile", "msg", "l-call", "l-pcall", "l-result", "app-return", "shutdown", "close", "close-returned",
+                   "transport-closed", "done", "view", "end", "app-start", "app-cancelled", "reported", "fault", "quiesce", "l-bootstrap",
+                   "l-handle", "l-release", "peer-deliver", "peer-echo",
+                   # events the end-state specification deliberately has no action for (their presence is the violation)
+                   "send-after-close", "close-hung", "not-done"}
 KNOWN_EVENTS = {"reset", "msg", "app-start", "app-return", "app-cancelled", "shutdown", "l-handle", "l-release", "l-result", "l-bootstrap",
                 "l-call", "l-pcall", "reported", "fault", "transport-closed", "done", "end", "peer-deliver", "peer-echo", "view",
                 "quiesce", "close", "close-returned"}
@@ -132,9 +149,11 @@ def validate(ctx, sd, tf, classes, other_sink=None):
         rej.append((key, off, ex, idx - start))
         del lines[start:end]
         if len(rej) >= MAX_REJECTED:
-            raise Inconclusive("%d executions rejected by RpcTrace (first: %s): not a single defect but a drift between driver and "
-                               "trace specification" % (len(rej), json.dumps(brief(rej[0][1]))))
-    ctx.cover(executions_accepted=total - len(rej), executions_total=total)
+            ctx.note("validation stopped after %d rejected executions; %d executions were not examined" % (
+                len(rej), sum(1 for x in lines if '"ev":"reset"' in x)))
+            lines = []
+            break
+    ctx.cover(executions_rejected=len(rej), executions_total=total)
     return rej, states
 
 
